@@ -48,6 +48,12 @@ Section Assoc.
     | [] => [(k, v)]
     | (k', v') :: r => if eqb k k' then (k', v) :: r else (k', v') :: aset k v r
     end.
+  (* d.pop(k, None) *)
+  Fixpoint aremove (k : K) (l : list (K * V)) : list (K * V) :=
+    match l with
+    | [] => []
+    | (k', v') :: r => if eqb k k' then r else (k', v') :: aremove k r
+    end.
 End Assoc.
 
 (* ---- cells ---------------------------------------------------------------------------------- *)
@@ -357,6 +363,29 @@ Fixpoint aggregate (sel : source -> key) (now : Z) (pcts : list Q) (types : list
       end
   end.
 
+(* Aggregate is not atomic: it calls gevent.sleep(0) once per registered metric, after which it reads a
+   snapshot of that metric's sources; the metric names are a snapshot taken at loop start (varz.py:298,304-305).
+   [sched] lists the receiver calls other greenlets make inside the 1st, 2nd, ... yield.  Returns the
+   state afterwards (only the batches of the yields that happened are applied). *)
+Fixpoint aggregate_il (cap : Z) (sel : source -> key) (now : Z) (pcts : list Q) (types : list (Z * Z))
+         (names : list Z) (st : state) (sched : list (list label))
+  : state * res (list (Z * list (key * (total * Z)))) :=
+  match names with
+  | [] => (st, ROk [])
+  | m :: r =>
+      match alookup Z.eqb m types with
+      | None => aggregate_il cap sel now pcts types r st sched
+      | Some ty =>
+          let st' := match sched with b :: _ => exec cap st b | [] => st end in
+          match agg_metric sel now pcts ty (get_series st' m) with
+          | RErr e => (st', RErr e)
+          | ROk x =>
+              let (st'', rest) := aggregate_il cap sel now pcts types r st' (tl sched) in
+              (st'', rbind rest (fun xs => ROk ((m, x) :: xs)))
+          end
+      end
+  end.
+
 (* ---- the varz calls of the dispatcher (dispatch.py:208, 77-99) ------------------------------ *)
 (* metric ids used for MessageDispatcher.Varz *)
 Definition M_dispatch := 100. Definition M_success := 101. Definition M_exception := 102. Definition M_latency := 103.
@@ -364,10 +393,12 @@ Definition M_dispatch := 100. Definition M_success := 101. Definition M_exceptio
 Definition dispatch_labels (service method : Z) : list label :=
   [Inc M_dispatch (Some method, Some service, None, None) 1].
 (* AsyncProcessResponse: a fresh Source(method, service, endpoint) per reply *)
-Definition reply_labels (service method : Z) (endpoint : option Z) (latency : Q) (is_error : bool) (rnd : option Q)
+(* outcome 0: MethodReturnMessage without error; 1: with error; otherwise: not a MethodReturnMessage (InternalError) *)
+Definition reply_labels (service method : Z) (endpoint : option Z) (latency : Q) (outcome : Z) (rnd : option Q)
   : list label :=
   let hs := (Some method, Some service, endpoint, None) in
-  [Sample M_latency hs latency rnd; Inc (if is_error then M_exception else M_success) hs 1].
+  Sample M_latency hs latency rnd ::
+  (if outcome =? 0 then [Inc M_success hs 1] else if outcome =? 1 then [Inc M_exception hs 1] else []).
 
 (* ---- correspondence cases (generated by harness/props/c18.py) ------------------------------- *)
 Record config := { c_cap : Z; c_types : list (Z * Z); c_pcts : list Q }.
@@ -376,7 +407,11 @@ Inductive op :=
 | OpL (l : label)
 | OpCall (ty m : Z) (s : source) (arg : Q) (rnd : option Q)     (* through a VarzMetric object of class ty *)
 | OpDump
-| OpAgg (sel : Z).
+| OpAgg (sel : Z)
+| OpAggIL (sel : Z) (sched : list (list label))   (* Aggregate with other greenlets' updates inside its yields *)
+| OpInvalid (m : Z) (k : Z)                       (* a receiver call (0 inc, 1 set, 2 sample) with a non-Source: ValueError;
+                                                     IncrementVarz / SetVarz evaluate VARZ_DATA[metric] first, which creates the metric *)
+| OpPop (m : Z).                                  (* VARZ_DATA.pop(metric, None) *)
 
 Definition selector (z : Z) : source -> key :=
   if z =? 0 then default_key_selector
@@ -394,6 +429,7 @@ Inductive obs :=
 
 Inductive mobs :=
 | MStep (o : outcome) (n : Z)
+| MInvalid (n : Z)                                           (* ValueError; number of series, -1: metric absent *)
 | MDump (d : list (Z * series))
 | MAgg (r : res (list (Z * list (key * (total * Z))))).
 
@@ -416,6 +452,21 @@ Fixpoint run_ops (cfg : config) (st : state) (ops : list op) : list mobs :=
       | None =>
           match o with
           | OpAgg z => MAgg (aggregate (selector z) (st_now st) (c_pcts cfg) (c_types cfg) (st_data st)) :: run_ops cfg st r
+          | OpAggIL z sched =>
+              let (st', res) := aggregate_il (c_cap cfg) (selector z) (st_now st) (c_pcts cfg) (c_types cfg)
+                                             (map fst (st_data st)) st sched in
+              MAgg res :: run_ops cfg st' r
+          | OpInvalid m k =>
+              let st' := if negb (k =? 2) then
+                           match alookup Z.eqb m (st_data st) with
+                           | Some _ => st
+                           | None => {| st_data := aset Z.eqb m [] (st_data st); st_now := st_now st |}
+                           end
+                         else st in
+              MInvalid (match alookup Z.eqb m (st_data st') with Some l => zlen l | None => -1 end) :: run_ops cfg st' r
+          | OpPop m =>
+              let st' := {| st_data := aremove Z.eqb m (st_data st); st_now := st_now st |} in
+              MStep OK 0 :: run_ops cfg st' r
           | _ => MDump (st_data st) :: run_ops cfg st r
           end
       end
@@ -464,6 +515,7 @@ Definition err_code (e : err) : Z :=
 Definition obs_match (m : mobs) (o : obs) : bool :=
   match m, o with
   | MStep out n, ObStep code k => (outcome_code out =? code) && (n =? k)
+  | MInvalid n, ObStep code k => (code =? 5) && (n =? k)
   | MDump d, ObDump e => data_eqb d e
   | MAgg (ROk r), ObAgg x => agg_match r x
   | MAgg (RErr e), ObAggErr code => err_code e =? code
@@ -473,13 +525,13 @@ Definition obs_match (m : mobs) (o : obs) : bool :=
 (* what the dispatcher does to varz, as a sequence of events: _DispatchMethod ran for a call
    (immediately when Open() had completed, else when it completes), a reply was processed *)
 Inductive e2e_event :=
-| EvDispatch (method : Z)
-| EvReply (method : Z) (endpoint : option Z) (latency : Q) (is_error : bool) (rnd : option Q).
-Definition e2e_labels (service : Z) (evs : list e2e_event) : list op :=
+| EvDispatch (service method : Z)
+| EvReply (service method : Z) (endpoint : option Z) (latency : Q) (outcome : Z) (rnd : option Q).
+Definition e2e_labels (evs : list e2e_event) : list op :=
   concat (map (fun e : e2e_event =>
     map OpL (match e with
-             | EvDispatch m => dispatch_labels service m
-             | EvReply m ep lat is_err rnd => reply_labels service m ep lat is_err rnd
+             | EvDispatch sv m => dispatch_labels sv m
+             | EvReply sv m ep lat outcome rnd => reply_labels sv m ep lat outcome rnd
              end)) evs).
 
 (* compact literals for the generated case files (-1 stands for python's None in a source field) *)
@@ -491,7 +543,7 @@ Definition qi (n : Z) : Q := inject_Z n.
 
 Inductive case :=
 | CRun (cfg : config) (ops : list op) (expected : list obs)
-| CE2E (cfg : config) (service : Z) (calls : list e2e_event) (tail : list op) (expected : list obs)
+| CE2E (cfg : config) (calls : list e2e_event) (tail : list op) (expected : list obs)
       (* expected: observations of the tail ops (dump / aggregate) after the calls *)
 | CPct (values : list Q) (ps : list Q) (expected : list (option Q))
 | CDown (lst : list Q) (target : Z) (expected : list Q)
@@ -504,8 +556,8 @@ Definition pct_scale (vs : list Q) (p : Q) : Q :=
 Definition check_case (c : case) : bool :=
   match c with
   | CRun cfg ops e => list_match obs_match (run_ops cfg init_state ops) e
-  | CE2E cfg service calls tail e =>
-      let pre := e2e_labels service calls in
+  | CE2E cfg calls tail e =>
+      let pre := e2e_labels calls in
       list_match obs_match (skipn (length pre) (run_ops cfg init_state (pre ++ tail))) e
       && forallb (fun m => match m with MStep OK _ => true | _ => false end)
                  (firstn (length pre) (run_ops cfg init_state (pre ++ tail)))
@@ -536,8 +588,8 @@ Inductive explanation :=
 Definition explain_case (c : case) : explanation :=
   match c with
   | CRun cfg ops e => XRun (firstn 2 (mismatches 0 (run_ops cfg init_state ops) e))
-  | CE2E cfg service calls tail e =>
-      let pre := e2e_labels service calls in
+  | CE2E cfg calls tail e =>
+      let pre := e2e_labels calls in
       XRun (firstn 2 (mismatches 0 (skipn (length pre) (run_ops cfg init_state (pre ++ tail))) e)
             ++ firstn 1 (mismatches 0 (filter (fun m => match m with MStep OK _ => false | _ => true end)
                                               (firstn (length pre) (run_ops cfg init_state (pre ++ tail)))) []))
